@@ -6,13 +6,13 @@ BASELINE = "cd /repo && env -u TRIMESH_VERIF /venv/bin/python -m pytest -ra -q -
 
 T = {
  "C01": ("history + reference model: differential of every public value against a freshly rebuilt mesh after each mutator, cache-read probe",
-         "Held on the enumerated (reads-before, mutator, reads-after) histories: every dynamically discovered cached/plain value and query answer of the mutated mesh equals a fresh reconstruction, and the arrays after a mutator equal those of the same history without reads; cache-probe shows the reads after mutation were served from a non-empty cache. Ill-conditioned values (decided by calibration twins) are counted, not judged. Mutators include edits through views, caller aliases, numpy out= routes and in-place edits of every result a read hands out. Open: merge_vertices uses cached normals; numpy write routes the subclass cannot see.",
+         "Held on the enumerated (reads-before, mutator, reads-after) histories: every dynamically discovered cached/plain value and query answer of the mutated mesh equals a fresh reconstruction, and the arrays after a mutator equal those of the same history without reads; cache-probe shows the reads after mutation were served from a non-empty cache. Ill-conditioned values (decided by calibration twins) are counted, not judged. Mutators include edits through views, caller aliases, numpy out= routes and in-place edits of every result a read hands out. Library functions that take a mesh are also run as the FIRST access after a pending edit. Open: merge_vertices uses cached normals; numpy write routes the subclass cannot see.",
          "2/C01"),
  "C02": ("history + reference model: non-perturbing hash peek vs hash of bytes after every step of enumerated numpy programs",
-         "Held on all programs of length <=2 per dtype, all view/hash/write templates, and sampled programs to length 4 (quick) / 6 (thorough), plus out= / C-level / buffer-protocol write routes, visual containers and a scan of library routes for second wrappers of tracked memory, except the listed open findings (numpy write routes that bypass the subclass, views the caller keeps).",
+         "Held on all programs of length <=2 per dtype, all view/hash/write templates, and sampled programs to length 4 (quick) / 6 (thorough), plus out= / C-level / buffer-protocol write routes, visual containers and a scan of library routes for second wrappers of tracked memory, except the listed open findings (numpy write routes that bypass the subclass, views the caller keeps); in-place operations that store and then raise.",
          "2/C02"),
  "C03": ("independent oracle: exact Fraction tetrahedron-decomposition integrals on integer-coordinate closed meshes",
-         "Held on generated integer-coordinate closed meshes (placements down to 1e-6 units) and on read / copy / edit histories over families of cache-sharing copies: volume, centre of mass, inertia (about the stated or overridden centre), frame inertia, density linearity agree with exact rational integrals within a computed rounding bound; placements up to 1e15 from the origin are judged against the rounding of a translation-invariant evaluation, primitives by the density / override laws.",
+         "Held on generated integer-coordinate closed meshes (placements down to 1e-6 units) and on read / copy / edit histories over families of cache-sharing copies: volume, centre of mass, inertia (about the stated or overridden centre), frame inertia, density linearity agree with exact rational integrals within a computed rounding bound; placements up to 1e15 from the origin are judged against the rounding of a translation-invariant evaluation, primitives by the density / override laws; near-rigid edit histories (scale 1 +- 1e-9..1e-4) and integer / float32 / list forms of every argument.",
          "2/C03"),
  "C04": ("independent oracle: homogeneous multiplication of pre-transform snapshots and the stated laws over geometry kinds x matrix classes",
          "Held on the matrix classes x geometry kinds table observed; each law (points, inverse, composition, winding, volume, centre of mass, area, inertia) checked on snapshots; primitives also through their parameters and reported values (a refused matrix must change nothing), curved paths against their own parametrisation, scenes of solids by the mesh laws; matrices within 1e-8 of the identity judged like any other.",
@@ -24,19 +24,19 @@ T = {
          "Held on generated integer/float rows around every packing threshold and exhaustive short sequences for blocks/merge_runs/group etc.; six memory layouts, empty input, digits on integers and as numpy scalars, floats beyond 2^63 / infinite / float16 / float32, float ramps.",
          "2/C06"),
  "C07": ("provenance tagging: unique ids on every face and vertex followed through each re-indexing operation",
-         "Held on tagged meshes through every re-indexing operation and option grid observed: masks of every integer dtype, colour states reached by assignment or by a history, magnitudes up to 1e15, operations that return meshes run as steps of a caller's history; data that must be carried (attributes, assigned normals, face_materials), repair option judged strictly.",
+         "Held on tagged meshes through every re-indexing operation and option grid observed: masks of every integer dtype, colour states reached by assignment or by a history, magnitudes up to 1e15, operations that return meshes run as steps of a caller's history; data that must be carried (attributes, assigned normals, face_materials), repair option judged strictly, derived values read before the operation, recurring materials through pack, numpy-integer digits.",
          "2/C07"),
  "C08": ("round-trip differential through a per-format quantiser; export immutability by hash and bytes",
          "Held on the format x option x geometry-class table observed (incl. svg scenes, non-cubic voxel boxes, renamed base frames, tiny offsets, special node names, paths with curves through dict, ascii ply at float32 precision), except the listed 3MF export findings.",
          "2/C08"),
  "C09": ("history + reference model: dict forest vs SceneGraph after every operation; icontract invariants on EnforcedForest",
-         "Held on all enumerated short histories and random histories to length 12, queries at every position; caller-owned buffers overwritten after every update, single-precision edges judged inside the repair band, edge lists loaded into already queried graphs; frame names with equal builtin hashes, loop-closing updates (refusal or a forest), graphs built with repair_rigid=None.",
+         "Held on all enumerated short histories and random histories to length 12, queries at every position; caller-owned buffers overwritten after every update, single-precision edges judged inside the repair band, edge lists loaded into already queried graphs; frame names with equal builtin hashes, loop-closing updates (refusal or a forest), graphs built with repair_rigid=None; assignments close to the stored matrix and jog histories judged at a tenth of the step.",
          "2/C09"),
  "C10": ("independent oracle: explicit placement of every instance with world matrices from the reference forest",
-         "Held on generated scenes (exact, single-precision and nanometre-unit regimes) and edit histories for every scene-level quantity and derived scene, incl. two-step derivations, shared geometry objects and copy-then-edit; primitives, voxel grids, arcs and unreferenced vertices as members, subscenes of instanced frames, factors next to one.",
+         "Held on generated scenes (exact, single-precision and nanometre-unit regimes) and edit histories for every scene-level quantity and derived scene, incl. two-step derivations, shared geometry objects and copy-then-edit; primitives, voxel grids, arcs and unreferenced vertices as members, subscenes of instanced frames, factors next to one; derived operations run again after a frame was added, apply_translation / apply_scale routes.",
          "2/C10"),
  "C11": ("independent oracle: exact per-triangle clipping (Fractions) giving expected segments and positive-side area; special plane placements",
-         "Held on meshes x planes incl. all sign patterns, near-vertex planes, short normals, sub-grid sections, face subsets (index and boolean) alone and with several planes, and call histories on one mesh; section segments, slice areas, cap volumes and watertightness; planes within tol.merge of a vertex, sizes 2^-17 .. 2^30, one-plane cap sweeps; except the listed earcut / branching-outline findings.",
+         "Held on meshes x planes incl. all sign patterns, near-vertex planes, short normals, sub-grid sections, face subsets (index and boolean) alone and with several planes, and call histories on one mesh; section segments, slice areas, cap volumes and watertightness; planes within tol.merge of a vertex, sizes 2^-17 .. 2^30, one-plane cap sweeps, planes that cut nothing, vertex edits between two calls with the same plane; except the listed earcut / branching-outline findings.",
          "2/C11"),
  "C12": ("independent oracle: brute force over all triangles with a general-position filter; solid-angle winding number; project-and-clamp closest point",
          "Held on generated meshes (incl. zero-area faces inside the face list) x rays/points (incl. short directions, repeated and converging rays) and query-edit-query histories for both engines at the scale classes not listed as findings (plate stacks, touching solids, origins 1e7 sizes away, scales 1e-5 .. 1e12).",
@@ -45,25 +45,25 @@ T = {
          "Held on every 0/1 sequence to length 12 (16 thorough), long runs per count dtype (uint8..uint64), encoding chains x reads x read histories (again / base after view), VoxelGrid maps with query-move-query, binvox round trip over every shape x transform class, encodings replaced through the setter, declared dtypes, negative / list / unsigned indices.",
          "2/C13"),
  "C14": ("metamorphic + exact oracle: shoelace area/perimeter in Fractions; presentation invariance; differential against fresh path after transforms",
-         "Held on generated drawings (incl. horseshoe curves with curves in their bays) x presentations x transforms (incl. negative apply_scale, drawings scaled to 1e-9) x reads, and DXF/SVG/dict round trips; fillets next to the merge grid, far placements, shallow and major arcs, declared units, sizes above 1e6; nesting of curves closer than the chord sagitta is a listed finding.",
+         "Held on generated drawings (incl. horseshoe curves with curves in their bays) x presentations x transforms (incl. negative apply_scale, drawings scaled to 1e-9) x reads, and DXF/SVG/dict round trips; fillets next to the merge grid, far placements, shallow and major arcs, declared units, sizes above 1e6, similarities within 1e-9..1e-4 of one judged at 2e-11; nesting of curves closer than the chord sagitta is a listed finding.",
          "2/C14"),
  "C15": ("independent oracle: closed forms of inscribed tessellations, bounded monotone convergence, exact inertia; primitive edit histories vs fresh primitive",
          "Held on creation functions x parameter grids x placements and primitive edit sequences (incl. parameters trading values, hash twins, caller-owned buffers); sizes 1e-7 .. 1e12, aspect ratios 1e+-9, open-ring profiles, near-straight sweeps; parameter write routes past the tracked array are listed findings.",
          "2/C15"),
  "C16": ("independent oracle: half-space containment, recomputed convexity, rigid OBB laws, Welzl minimal sphere",
-         "Held on point-set classes x bounding volumes observed and on move / copy / edit histories; minimality judged where the minimal sphere has 4 support points; near-coincident extreme points, mirrored primitives, non-spanning input far from the origin, QJ option.",
+         "Held on point-set classes x bounding volumes observed and on move / copy / edit histories; minimality judged where the minimal sphere has 4 support points; near-coincident extreme points, mirrored primitives, non-spanning input far from the origin, QJ option, reads of other cached properties before the query, inputs of 530-3000 points.",
          "2/C16"),
  "C17": ("history + deep snapshots + object-graph aliasing walker",
-         "Held on geometry kinds x states (fresh, warm, reached by a history before the copy) x copy routes x edits of either side; shared writable arrays found by the walker are confirmed by writing through them; cache-keeping copies (lists, graphs, sparse matrices, kdtree), deep copies after proximity queries, lights, camera parameters, visual vertex data.",
+         "Held on geometry kinds x states (fresh, warm, reached by a history before the copy) x copy routes x edits of either side; shared writable arrays found by the walker are confirmed by writing through them; cache-keeping copies (lists, graphs, sparse matrices, kdtree), deep copies after proximity queries, lights, camera parameters, visual vertex data, material parameters incl. boundary values.",
          "2/C17"),
  "C18": ("independent oracle: invariants before/after; all re-winding subsets of small solids enumerated",
-         "Held on subdivision, normal repair (method, function, process(validate=True), constructor) over every re-winding subset of small solids in units from 1 down to 3e-6, and hole filling cases incl. meshes that arrive through query + invert, hole meshes in small units, solids with fewer than 8 faces, bodies sharing a vertex, punctured meshes.",
+         "Held on subdivision, normal repair (method, function, process(validate=True), constructor) over every re-winding subset of small solids in units from 1 down to 3e-6, and hole filling cases incl. meshes that arrive through query + invert, hole meshes in small units, solids with fewer than 8 faces, bodies sharing a vertex, punctured meshes, cached reads before the repair, size bounds next to the merge grid (method equals function).",
          "2/C18"),
  "C19": ("independent oracle: elementary rotations per convention, textbook quaternion algebra, explicit homogeneous products",
          "Held on 24 conventions x angle grids incl. gimbal, quaternion / axis-angle / compose-decompose round trips; results of conversions are the caller's (same arguments twice, first result edited); angles 1e-9 .. pi, near-gimbal ladder 3e-15 .. 1e-6, axis lengths 1e+-100, integer point dtypes.",
          "2/C19"),
  "C20": ("fault injection + process monitor: mutated exporter output loaded in resource-limited children; open-file monitor",
-         "Every enumerated fault (truncations, substitutions, field inflation, chunk ops, splices, noise, repeated blocks, zip members re-packed, id copies, JSON slot faults, asset references redirected) over each loader and entry point (file object, name, name + type, pathlib; multi-file models with their companions) ended in geometry or an ordinary exception within CPU/memory bounds with all self-opened files closed, and well-formed files grown along one structural dimension (instance graphs, record counts, line lengths) stayed within the same linear bounds, except the listed open findings.",
+         "Every enumerated fault (truncations, substitutions, field inflation, chunk ops, splices, noise, repeated blocks, zip members re-packed, id copies, JSON slot faults, asset references redirected) over each loader and entry point (file object, name, name + type, pathlib; multi-file models with their companions) ended in geometry or an ordinary exception within CPU/memory bounds with all self-opened files closed, and well-formed files grown along one structural dimension (instance graphs, record counts, line lengths) stayed within the same linear bounds (incl. the name shapes of repeated records), except the listed open findings.",
          "2/C20"),
 }
 LEVEL = {"C20": "fault_enumeration"}
